@@ -3,12 +3,13 @@
    path is lexed (documented path characters, at most 64 tokens), every capture converts
    (okconv constantly true: e.g. string fields), and the covering is the specification's MatchEdges
    (so "**" ends the template: the lexer enforces it, Properties/C16).
-   PARTIAL: order independence is proved as "every registration order that is accepted yields a trie
-   that serves exactly the covered requests, by methods owning covering rules" (both directions,
-   C02_order_independent_partial); that the two tries pick the same rule when several cover a path is
-   decided by the correspondence run (all permutations of every generated rule set), not by a theorem. *)
+   Order independence: two accepted registration orders of the same bindings route every request
+   identically (C02_order_independent, through an exact characterisation of a built trie's content by
+   the list of registered bindings). PARTIAL only in this: that one order is accepted whenever the
+   other is, is decided by the correspondence run (every generated rule set is registered in all
+   permutations and the verdicts compared), not by a theorem. *)
 From Larking Require Import Base.GoSem Model.Lexer Model.Trie Model.Match Spec.Grammar Spec.Route
-  Proofs.LexerProofs Proofs.MatchProofs Proofs.TrieProofs Proofs.RoutingProofs.
+  Proofs.LexerProofs Proofs.MatchProofs Proofs.TrieProofs Proofs.RoutingProofs Proofs.OrderProofs.
 From Coq Require Import Permutation.
 Local Open Scope N_scope.
 
@@ -69,26 +70,29 @@ Theorem C02_route_total : forall isLetter isNumber resolves okconv L root verb p
 Proof. intros isLetter isNumber resolves okconv L root verb p HI. eapply route_total; eauto. Qed.
 Print Assumptions C02_route_total.
 
-(* order independence, partial: two accepted registration orders of the same bindings serve the same
-   set of requests, each by a method owning a covering rule *)
-Theorem C02_order_independent_partial :
-  forall isLetter isNumber resolves okconv, Sane isLetter isNumber -> (forall fp t, okconv fp t = true) ->
-  forall L1 L2 root1 root2 verb p,
-  Permutation L1 L2 ->
-  Inv isLetter isNumber resolves L1 root1 -> Inv isLetter isNumber resolves L2 root2 ->
-  (exists r1, route okconv isLetter isNumber root1 verb p = Ok r1) <->
-  (exists r2, route okconv isLetter isNumber root2 verb p = Ok r2).
+(* order independence: register the same bindings (no two different ones at the same node under the
+   same verb) in two orders; if both orders are accepted, every request -- any verb, any path -- gets
+   the same answer: same binding, same captures, or the same refusal *)
+Theorem C02_order_independent :
+  forall isLetter isNumber resolves body_ok resp_ok okconv, Sane isLetter isNumber ->
+  forall l1 l2 r1 r2,
+  Permutation l1 l2 -> Distinct isLetter isNumber resolves l1 ->
+  build_from isLetter isNumber resolves body_ok resp_ok empty_node l1 = Ok r1 ->
+  build_from isLetter isNumber resolves body_ok resp_ok empty_node l2 = Ok r2 ->
+  forall verb p, route okconv isLetter isNumber r1 verb p = route okconv isLetter isNumber r2 verb p.
+Proof. intros isLetter isNumber resolves body_ok resp_ok okconv. exact (order_independent isLetter isNumber resolves body_ok resp_ok okconv). Qed.
+Print Assumptions C02_order_independent.
+
+(* the content of a built trie is exactly the registered bindings: which nodes exist, and what is
+   stored at each, is a function of the set of bindings, not of their order *)
+Theorem C02_content_exact : forall isLetter isNumber resolves body_ok resp_ok l r, Distinct isLetter isNumber resolves (rev l ++ []) ->
+  build_from isLetter isNumber resolves body_ok resp_ok empty_node l = Ok r ->
+  InvX isLetter isNumber resolves (rev l ++ []) r.
 Proof.
-  intros isLetter isNumber resolves okconv sane conv L1 L2 root1 root2 verb p HP H1 H2.
-  assert (Hdir : forall La Lb ra rb, Permutation La Lb -> Inv isLetter isNumber resolves La ra -> Inv isLetter isNumber resolves Lb rb ->
-                   (exists r, route okconv isLetter isNumber ra verb p = Ok r) -> exists r, route okconv isLetter isNumber rb verb p = Ok r).
-  { intros La Lb ra rb Hp Ha Hb [[m caps] Hr].
-    destruct (dispatch_sound isLetter isNumber resolves okconv sane La ra verb p m caps Ha Hr) as (mid & b & es & toks & A & B & C & D & E & F & G).
-    eapply (dispatch_complete isLetter isNumber resolves okconv sane conv Lb rb verb p mid b es (m_vars m) toks caps); eauto.
-    eapply Permutation_in; eauto. }
-  split; [apply (Hdir L1 L2)|apply (Hdir L2 L1)]; auto. now apply Permutation_sym.
+  intros isLetter isNumber resolves body_ok resp_ok l r HD HB.
+  exact (build_InvX isLetter isNumber resolves body_ok resp_ok l [] empty_node r (InvX_empty isLetter isNumber resolves) HD HB).
 Qed.
-Print Assumptions C02_order_independent_partial.
+Print Assumptions C02_content_exact.
 
 (* ---- instance: precedence on a concrete trie ---- *)
 Definition asciiL (r : N) : bool := ((65 <=? r) && (r <=? 90)) || ((97 <=? r) && (r <=? 122)).
